@@ -825,6 +825,7 @@ theorem atom_sim (a : Atom) (b : Buffer) (h : Inv b) (ha : a.overBuffer = true) 
   cases a with
   | utf8Range found lo hi => cases ha
   | maxDigits mx => cases ha
+  | repOne lo hi c => cases ha
   | any =>
     simp only [atomStepBuf, atomStep]
     rcases he : b.empty with ⟨o, e, b1⟩
